@@ -4,6 +4,8 @@ import KmipModel.Client
 import KmipModel.ExpectSkel
 import KmipGen.Schema
 import KmipGen.Skeleton
+import KmipGen.Dataflow
+import KmipModel.ExpectFlow
 import KmipProofs.WireGen
 import KmipProofs.WireDV
 import KmipProps.C20
@@ -297,5 +299,8 @@ theorem GenC14_example_request_served (clock : Nat) (H : Nat → ItemIn → HRes
   obtain ⟨rv, d1, h1, h2, _⟩ := GenC14_e2e_over_the_wire (1, 4) 18 exActPayload clock H _ [] fin .eof
     GenC14_example_request_wf GenC14_example_request_small rfl
   exact ⟨_, rv, d1, _, rfl, by decide +kernel, h1, h2⟩
+
+theorem GenC14_Send_dataflow : KmipGen.flow_Client_Send = ExpectFlow.flow_Client_Send := by decide +kernel
+theorem GenC14_request_copies : Wire.under "request".toList KmipGen.flow_Client_Send = Wire.reqFlow := by decide +kernel
 
 end Kmip
